@@ -1069,6 +1069,33 @@ silent("c08-s-optimizer-absent-vars-via-local", "C08", OPTIMIZER,
        "    final_reduced_vars |= reduced_vars - frozenset().union(*inputs)\n",
        "    absent = reduced_vars - frozenset().union(*inputs)\n    final_reduced_vars = final_reduced_vars | absent\n")
 
+
+# ---- R06.10 / R01.17, R04.11, R04.12, R16.11, R11.9 injective renaming
+fire("c06-lambda-boundary-from-variable-rank", "C06", TENSOR,
+     "        dim = len(shape) - len(expr.output.shape)\n", "        dim = len(shape) - len(var.output.shape)\n", "R06.10", "eager_lambda")
+fire("c01-binary-kernel-cut-from-other-operand", "C01", TENSOR,
+     "            cut = len(lhs_data.shape) - lhs_dim\n            shape = lhs_data.shape\n            shape = shape[:cut] + (1,) * (rhs_dim - lhs_dim) + shape[cut:]",
+     "            cut = len(lhs_data.shape) - rhs_dim\n            shape = lhs_data.shape\n            shape = shape[:cut] + (1,) * (rhs_dim - lhs_dim) + shape[cut:]", "R01.17", "eager_binary_tensor_tensor")
+silent("c06-s-lambda-boundary-via-local-rank", "C06", TENSOR,
+       "        dim = len(shape) - len(expr.output.shape)\n", "        event_rank = len(expr.output.shape)\n        dim = len(shape) - event_rank\n")
+fire("c04-fusion-filters-outer-pairs", "C04", TERMS,
+     "    fused_subs += subs\n    return Subs(arg.arg, fused_subs)",
+     "    introduced = frozenset().union(*(v.inputs for v in arg.subs.values()))\n    fused_subs += tuple((k, v) for k, v in subs if k not in introduced)\n    return Subs(arg.arg, fused_subs)",
+     "R04.11", "eager_subs_subs")
+fire("c02-fusion-inner-values-get-narrowed-subs", "C02", CNF,
+     "    new_subs = subs + tuple((k, Subs(v, subs)) for k, v in arg_subs)\n",
+     "    inner_subs = tuple((k, v) for k, v in subs if k not in arg.arg.inputs)\n    new_subs = subs + tuple((k, Subs(v, inner_subs)) for k, v in arg_subs)\n", "R02.17", "normalize_fuse_subs")
+silent("c04-s-fusion-outer-pairs-first", "C04", TERMS,
+       "    fused_subs = tuple((k, Subs(v, subs)) for k, v in arg.subs.items())\n    fused_subs += subs\n",
+       "    inner = tuple((k, Subs(v, subs)) for k, v in arg.subs.items())\n    fused_subs = inner + subs\n")
+fire("c04-gaussian-values-in-caller-order", "C04", GAUSS,
+     "        value_b = ops.cat([values[k] for k, i in slices if k in b], -1)\n", "        value_b = ops.cat(list(values.values()), -1)\n", "R04.12", "_eager_subs_real")
+fire("c16-bare-frozenset-subtype-of-everything", "C16", TYPING,
+     "    if not subcls_args:\n        return cls_args[0] is typing.Any\n\n    return len(subcls_args) == len(cls_args) == 1",
+     "    if not subcls_args:\n        return True\n\n    return len(subcls_args) == len(cls_args) == 1", "R16.11", "_subclasscheck_frozenset")
+fire("c11-scatter-number-renaming-not-injective", "C11", TENSOR,
+     "        if len({v.name for k, v in subs}) == len(subs):\n            return source\n", "        return source\n", "R11.9", "eager_scatter_number")
+
 # ===== derived variants: must stay at the END of this file (they enumerate every rename() variant above) =====
 # `if c: A else: B` -> `if not c: B else: A` in the anchor functions (behaviour-preserving)
 def invert(prop, file, qual):
